@@ -193,6 +193,9 @@ def run_kani(hs, log, extra=()):
             results.update(r)
             if "error: could not compile" in err or "error[E" in err:
                 errs.append(err[-3000:])
+    for d in os.listdir(TD):
+        if os.path.isdir(os.path.join(TD, d)):
+            shutil.rmtree(os.path.join(TD, d), ignore_errors=True)   # ~0.6 GB each; only the *.out logs are kept
     if errs:
         raise common.Inconclusive("harness crate does not compile under Kani:\n" + errs[0])
     short = {}
